@@ -155,7 +155,8 @@ class ScriptStreamer(object):
             self.decoder[opcode_lookup.get(o)] = make_variable_handler(
                 dec_f, self.sized_encoder.keys(), min_size, non_minimal_data_handler
             )
-            min_size = max_size + 1
+            # the next, wider opcode is minimal only for sizes above max_size
+            min_size = max_size
 
         # deal with sized data opcodes
 
